@@ -24,6 +24,7 @@ def jobs():
         _JOBS = []
         from . import jobs_keyfile
         jobs_keyfile.register(_JOBS)
+        jobs_keyfile.register_wrappers(_JOBS)
         from . import jobs_parser
         jobs_parser.register(_JOBS)
         from . import jobs_merge
